@@ -394,6 +394,7 @@ class ReaderMonitor(object):
                     f = _BIN[name]
                     nt = (lambda th=th, f=f, arg=arg: f(th(), arg))
                     nt.parent = th
+                    nt.apply = (lambda X, pa=getattr(th, 'apply', None), f=f, arg=arg: f(pa(X) if pa else X, arg))
                     me.shadow[out] = (nt, al, lb)
                     ctx.mon('M1.derived')
                 return out
@@ -408,6 +409,7 @@ class ReaderMonitor(object):
                     f = _UN[name]
                     nt = (lambda th=th, f=f: f(th()))
                     nt.parent = th
+                    nt.apply = (lambda X, pa=getattr(th, 'apply', None), f=f: f(pa(X) if pa else X))
                     me.shadow[out] = (nt, al, lb)
                     ctx.mon('M1.derived')
                 return out
@@ -453,6 +455,7 @@ class ReaderMonitor(object):
             if isinstance(out, BaseEphysReader):
                 nt = (lambda th=th, cols=cols: th()[:, cols])
                 nt.parent = th
+                nt.apply = (lambda X, pa=getattr(th, 'apply', None), cols=cols: (pa(X) if pa else X)[:, cols])
                 self.shadow[out] = (nt, al, lb)
                 ctx.mon('M1.derived')
             else:
@@ -498,6 +501,25 @@ class ReaderMonitor(object):
                         break
             if tol > ulp_tol(exp):
                 d = same(out, exp, rtol=tol)
+            if d is not None and getattr(th, 'apply', None) is not None:
+                # NumPy's result for one expression can differ in the last unit between a whole array and a few of its rows
+                # (vectorised / scalar inner loops); a floor division later in the expression turns that into a whole step.
+                # Eager evaluation of the expression on the selected rows of the recording is eager evaluation too.
+                try:
+                    root = th
+                    while getattr(root, 'parent', None) is not None:
+                        root = root.parent
+                    base = root()
+                    sel = base[[int(rows)]] if isinstance(rows, (int, np.integer)) else (base[rows] if isinstance(rows, slice) else base[np.asarray(rows, dtype=np.int64)])
+                    with np.errstate(all='ignore'):
+                        exp2 = th.apply(sel)
+                    if cols is not None:
+                        exp2 = exp2[:, cols]
+                    if same(out, exp2, rtol=tol) is None:
+                        d = None
+                        ctx.mon('M1.matched_rowwise_evaluation')
+                except Exception:
+                    pass
         if d is not None:
             ctx.violation('reader_read_mismatch',
                           {'label': lb, 'item': item, 'reader_shape': list(A.shape),
